@@ -66,6 +66,6 @@ Proof. exact render_verbatim_partial. Qed.
 (* literals the model repeats from the source are the ones the translator extracts from the current source (gen/Tables.v) *)
 From VGen Require Import Tables.
 From VModel Require Import PolicyM.
-From VProofs Require Import TieProofs.
+From VProofs Require Import TieC06.
 Theorem c06_tie_policy_markers : [kex_strict_c; kex_strict_s] = src_policy_markers.
 Proof. exact tie_policy_markers. Qed.
